@@ -221,7 +221,31 @@ def part_kinds(ctx, quick, recs, st):
         add("decl-%d-minus" % i, "@@\n@@\n" + pre(sn, "-") + "+var replaced = 1\n")
         add("decl-%d-plus" % i, "@@\n@@\n-func init() {}\n" + pre(sn, "+"))
         add("decl-%d-ctx" % i, "@@\n@@\n" + pre(sn, " "))
+    # an elision in every slot template (where it is an elision of a list and where it is not)
+    for name in sorted(SLOTS):
+        tmpl = re.sub(r"\bx\b", "...", SLOTS[name])
+        if tmpl == SLOTS[name]:
+            continue
+        add("dots-%s-plus" % name, "@@\n@@\n-foo()\n" + pre(tmpl, "+"))
+        add("dots-%s-minus" % name, "@@\n@@\n" + pre(tmpl, "-") + "+bar()\n")
+        add("dots-%s-ctx" % name, "@@\n@@\n" + pre(tmpl, " ") + "-foo()\n+bar()\n")
     REQS.update({r["id"]: r for r in reqs})
+    # the command's own steps (printing, import processing, writing) see these trees too
+    scs = [dict(id="cli-" + r["id"], files=[dict(path="s.go", content=r["src"]), dict(path="p.patch", content=r["patch"])], dirs=[], symlinks=[],
+                args=["-p", "p.patch", "s.go"], stdin="", cwd="", strace=False, timeout_ms=20000) for r in reqs]
+    for sc, r in zip(scs, fr.run_cli(ctx, scs, "c08-kinds")):
+        if r["timeout"]:
+            o, d, s_ = "timeout", "0", "x"
+        elif r["exit"] == 0:
+            o, d, s_ = "ok", "0", "0"
+        elif r["exit"] == 1:
+            o, d, s_ = "error", "1" if r["stderr"].strip() else "0", "1"
+        elif "panic:" in r["stderr"] or "goroutine " in r["stderr"]:
+            o, d, s_ = "panic", "1", "x"
+        else:
+            o, d, s_ = "killed", "0", "x"
+        recs.append(dict(id=sc["id"], outcome=o, diag=d, status=s_, augs=[], pred=[],
+                         what=dict(patch=sc["files"][1]["content"], src=sc["files"][0]["content"], exit=r["exit"], stderr=r["stderr"][:500])))
     for req, r in zip(reqs, api_batch(ctx, reqs, "kinds")):
         o, d, s = outcome_of(r["err"])
         recs.append(dict(id=req["id"], outcome=o, diag=d, status=s, augs=[], pred=[], what=meta[req["id"]]))
